@@ -1,0 +1,68 @@
+// Copyright 2017 Pilosa Corp.
+//
+// Licensed under the Apache License, Version 2.0 (the "License");
+// you may not use this file except in compliance with the License.
+// You may obtain a copy of the License at
+//
+//     http://www.apache.org/licenses/LICENSE-2.0
+//
+// Unless required by applicable law or agreed to in writing, software
+// distributed under the License is distributed on an "AS IS" BASIS,
+// WITHOUT WARRANTIES OR CONDITIONS OF ANY KIND, either express or implied.
+// See the License for the specific language governing permissions and
+// limitations under the License.
+
+
+//go:build verif
+// +build verif
+
+package roaring
+
+import (
+	"io"
+	"unsafe"
+)
+
+// Export shims for the verification harness (/verif, property C06). Add-only, tag-guarded.
+
+// VerifC06Item is what a roaring iterator's Next yields, with the data it
+// points to copied out.
+type VerifC06Item struct {
+	Key  uint64
+	Typ  byte
+	N    int
+	Len  int
+	Data []uint16 // Len values (array), 4*Len (bitmap words as uint16s), 2*Len (runs: start, last)
+}
+
+// VerifC06Iterate runs newRoaringIterator on data and calls Next until it
+// reports an error. ctorErr is the constructor's error, walkErr the error
+// that ended the walk (nil for io.EOF).
+func VerifC06Iterate(data []byte) (items []VerifC06Item, ctorErr error, walkErr error) {
+	itr, err := newRoaringIterator(data)
+	if err != nil {
+		return nil, err, nil
+	}
+	for {
+		key, typ, n, length, ptr, err := itr.Next()
+		if err == io.EOF {
+			return items, nil, nil
+		}
+		if err != nil {
+			return items, nil, err
+		}
+		it := VerifC06Item{Key: key, Typ: typ, N: n, Len: length}
+		words := length
+		switch typ {
+		case containerBitmap:
+			words = length * 4
+		case containerRun:
+			words = length * 2
+		}
+		if words > 0 {
+			src := (*[1 << 20]uint16)(unsafe.Pointer(ptr))[:words:words]
+			it.Data = append([]uint16(nil), src...)
+		}
+		items = append(items, it)
+	}
+}
